@@ -30,7 +30,14 @@ PNext == /\ i <= NCalls
 DNext == \/ /\ i <= NCalls /\ Call.outcome = "ok" /\ PageStart(Call.worker, Call.page)
             /\ d' = 0 /\ UNCHANGED <<tid, i>>
          \/ /\ LineConfident /\ UNCHANGED <<tid, i, d>>
-         \/ /\ LineFail /\ UNCHANGED <<tid, i, d>>
+         \/ /\ LineFail
+            /\ IF Broken(cur, pos) /\ ~ThresholdSet(cfgid)          \* the decoder WAS called for a broken line (and raised)
+               THEN /\ d < Len(Call.decodes)
+                    /\ Call.decodes[d + 1].line = pos
+                    /\ Call.decodes[d + 1].from = StartCtx(CarryOf(cfgid), lastH[cw], lastLine[cw])
+                    /\ d' = d + 1
+               ELSE d' = d
+            /\ UNCHANGED <<tid, i>>
          \/ /\ LineDecode /\ d < Len(Call.decodes)
             /\ Call.decodes[d + 1].line = pos
             /\ Call.decodes[d + 1].from = log'[Len(log')].from
